@@ -6,7 +6,7 @@ from .values import _byte_type
 from .sym import (TRUE, FALSE, RS, IS, zand, zor, znot, zimp, State, Frame, HeapLV)
 from .expr import ERR_TAG
 
-SPEC_FUNCS = ("zzStrIsBytes", "zzSameStr", "zzDisjoint", "zzDisjointStr", "zzOld", "zzImp", "zzForall", "zzExists", "zzResult", "zzIter", "zzFresh", "zzAlloc", "zzSameSlice", "zzNilErr", "zzLen")
+SPEC_FUNCS = ("zzArg", "zzRet", "zzSeq", "zzCalls", "zzStrIsBytes", "zzSameStr", "zzDisjoint", "zzDisjointStr", "zzOld", "zzImp", "zzForall", "zzExists", "zzResult", "zzIter", "zzFresh", "zzAlloc", "zzSameSlice", "zzNilErr", "zzLen")
 
 
 class CallMixin:
@@ -36,6 +36,14 @@ class CallMixin:
                 return self.iface_call(callee, e, st)
             f = self.prog.funcs.get(callee)
             if f is not None:
+                if f.contract is None:
+                    try:
+                        return self.call_func(f, e, st)
+                    except Unsupported as ex:
+                        # a contract-less callee whose receiver shape is outside the subset: treat like any other
+                        # abstracted call (arbitrary result, recorded as an operation)
+                        self.notes.append("call to %s abstracted: %s" % (callee, ex))
+                        return self.unknown_call(callee, e, st)
                 return self.call_func(f, e, st)
             return self.unknown_call(callee, e, st)
         # dynamic call through a function value
@@ -130,7 +138,7 @@ class CallMixin:
             if u.k == "slice":
                 ln = self.index_value(args[1], st)
                 cap = self.index_value(args[2], st) if len(args) > 2 else ln
-                self.oblige(st, "safety", "make-len@%s" % self.site(e), z3.And(ln >= 0, ln <= cap, cap <= idx(MAXLEN)), e.get("ln"), "make: 0 <= len <= cap")
+                self.oblige(st, "safety", "make-len@%s" % self.site(e), z3.And(ln >= 0, ln <= cap, cap <= idx(2 * MAXLEN)), e.get("ln"), "make: 0 <= len <= cap")
                 self.alloc_obligation(st, e, cap)
                 self.alloc_sites.append((e, cap, t.elem(), st.pc))
                 return self.alloc_slice(st, t.elem(), ln, cap)
@@ -320,6 +328,42 @@ class CallMixin:
             if isinstance(v, IfaceV):
                 return z3.UGE(v.oid, rid(base))
             raise Unsupported("fresh() of this value")
+        if name in ("zzArg", "zzRet", "zzSeq"):
+            lit = args[0]["cv"]["v"]
+            nm = bytes(lit).decode() if not isinstance(lit, str) else self._b64(lit).decode()
+            if name == "zzSeq":
+                v = st.ghost.get("seq:" + nm)
+                return v if v is not None else z3.BitVecVal(0, 64)
+            if name == "zzArg":
+                i = int(args[1]["cv"]["v"])
+                t = self.arg_types.get((nm, i))
+                prefix = "arg:%s:%d:" % (nm, i)
+            else:
+                t = self.arg_types.get((nm, "ret"))
+                prefix = "ret:%s:" % nm
+            want = self.T(e)
+            if t is None:
+                # the operation was never performed on any path: an arbitrary value
+                return self.fresh_value(want, "noarg")
+            n = len(leaves(t))
+            terms = []
+            for k_ in range(n):
+                tm = st.ghost.get(prefix + str(k_))
+                if tm is None:
+                    return self.fresh_value(want, "noarg")
+                terms.append(tm)
+            v, _ = unflatten(t, terms)
+            return self.coerce(v, t, want, st) if t.id != want.id else v
+        if name == "zzCalls":
+            nm = bytes(args[0]["cv"]["v"]).decode() if not isinstance(args[0]["cv"]["v"], str) else self._b64(args[0]["cv"]["v"]).decode()
+            ctx = self.clause_ctx[-1] if self.clause_ctx else None
+            pre = ctx["old"] if ctx else self.pre_state
+            key = "ev:" + nm
+            cur = st.ghost.get(key)
+            old_ = pre.ghost.get(key) if pre is not None else None
+            zero = z3.BitVecVal(0, 64)
+            self.events_named.add(nm)
+            return (cur if cur is not None else zero) - (old_ if old_ is not None else zero)
         if name == "zzStrIsBytes":
             a = self.ev(args[0], st)
             b = self.ev(args[1], st)
@@ -360,6 +404,13 @@ class CallMixin:
         if c is not None and "inline" in c.flags:
             return True
         return f.full in self.cfg.get("inline", ())
+
+    def contract_emits(self, f):
+        c = f.contract
+        if c is None:
+            return []
+        txt = (c.flags.get("emits") or "").strip()
+        return [x.strip() for x in txt.split(",") if x.strip()]
 
     def contract_modifies(self, f):
         c = f.contract
@@ -428,6 +479,21 @@ class CallMixin:
         c = f.contract
         if c is not None and "abstract" in c.flags:
             return self.abstract_call(f, vals, st)
+        if c is not None and "observe" in c.flags:
+            # an observation of shared state (e.g. IsSelected): any boolean may come back on any call; which one came
+            # back is recorded, so contracts can say "if some observation during the call was false, then ..."
+            nm = (c.flags.get("observe") or "").strip() or self.prog.short(f.full)
+            r = self.fresh("obs", z3.BoolSort())
+            one, zero = z3.BitVecVal(1, 64), z3.BitVecVal(0, 64)
+            if not self.spec:
+                for suffix, hit in ((":true", r), (":false", znot(r))):
+                    key = "ev:" + nm + suffix
+                    cur = st.ghost.get(key)
+                    if cur is None:
+                        cur = zero
+                    st.ghost[key] = cur + z3.If(hit, one, zero)
+                    self.events_seen.add(nm + suffix)
+            return r
         if (f.spec and (c is None or not c.of("ensures"))) or self.should_inline(f):
             return self.inline_call(f, e, st, vals)
         if self.spec and (c is None or not (c.clauses or c.flags)):
@@ -526,7 +592,7 @@ class CallMixin:
         if have_ptr and not want_ptr:
             self.oblige(st, "safety", "nil-deref@%s" % self.site(fun), cur.oid != rid(0), fun.get("ln"), "nil pointer dereference (method receiver)")
             return self.deref_lv(cur, rt).get(self, st)
-        raise Unsupported("address of embedded value receiver")
+        raise Unsupported("address of embedded value receiver (line %s, %s)" % (fun.get("ln"), (fun.get("Sel") or {}).get("Name")))
 
     def inline_call(self, f, e, st, vals=None):
         if self.call_depth > 12:
@@ -588,6 +654,10 @@ class CallMixin:
             if z3.is_false(armed):
                 continue
             d = st.fork(zand(st.pc, armed))
+            for k_, v_ in snap.vars.items():
+                # variables that were in scope at the defer statement (argument expressions are evaluated there)
+                if k_ not in d.vars:
+                    d.vars[k_] = v_
             self.ev(call, d)
             nd = st.fork(zand(st.pc, znot(armed)))
             pc = st.pc
@@ -623,6 +693,22 @@ class CallMixin:
         post = env
         for m in self.parse_modifies(f):
             self.apply_modifies(m, f, post, st)
+        sig0 = self.prog.types[node["sig"]].under().d
+        ptypes0 = [self.prog.types[p_["t"]] for p_ in sig0.get("params") or []]
+        pvals0 = vals[1:] if (node.get("Recv") and node["Recv"].get("List")) else vals
+        if len(pvals0) == len(ptypes0):
+            self.record_call_values(st, self.prog.short(f.full), pvals0, ptypes0)
+        self.trace_event(st, self.prog.short(f.full))
+        post.ghost = dict(st.ghost)
+        for nm in self.contract_emits(f):
+            key = "ev:" + nm
+            cur = post.ghost.get(key)
+            if cur is None:
+                cur = z3.BitVecVal(0, 64)
+            d = self.fresh("calls@" + nm, z3.BitVecSort(64))
+            self.facts.append(z3.And(z3.ULE(d, z3.BitVecVal(1 << 40, 64))))
+            post.ghost[key] = cur + d
+            self.events_seen.add(nm)
         sig = self.prog.types[node["sig"]].under().d
         rtypes = [self.prog.types[r["t"]] for r in sig.get("results") or []]
         results = []
@@ -723,14 +809,33 @@ class CallMixin:
                     return nm["obj"]
         raise Unsupported("no parameter %s in %s" % (name, f.full))
 
-    def unknown_call(self, callee, e, st, evaluated=False):
-        """No contract and no model: results are unconstrained; the callee is assumed not to write caller-visible memory."""
-        for a in (e.get("Args") or []) if not evaluated else []:
+    def record_call_values(self, st, short, argvals, argtypes):
+        """Ghost record of the arguments of the LAST call of an abstracted operation (read by zzArg in contracts)."""
+        if self.spec:
+            return
+        for i, (v, t) in enumerate(zip(argvals, argtypes)):
             try:
-                self.ev(a, st)
+                terms = flatten(v, t)
             except Unsupported:
-                pass
+                continue
+            self.arg_types[(short, i)] = t
+            for k_, tm in enumerate(terms):
+                st.ghost["arg:%s:%d:%d" % (short, i, k_)] = tm
+
+    def unknown_call(self, callee, e, st, evaluated=False, argvals=None, argtypes=None):
+        """No contract and no model: results are unconstrained; the callee is assumed not to write caller-visible memory."""
         short = self.prog.short(callee)
+        if not evaluated:
+            argvals, argtypes = [], []
+            for a in (e.get("Args") or []):
+                try:
+                    argvals.append(self.ev(a, st))
+                    argtypes.append(self.T(a))
+                except Unsupported:
+                    pass
+        if argvals is not None and argtypes is not None and len(argvals) == len(argtypes):
+            self.record_call_values(st, short, argvals, argtypes)
+        self.trace_event(st, short)
         self.assumptions.add("call to %s: no contract; result unconstrained, assumed to terminate without panic and to write no caller-visible memory" % short)
         t = self.T(e) if "t" in e else None
         if t is None:
@@ -746,6 +851,13 @@ class CallMixin:
             return TupleV(vals)
         v = self.fresh_value(t, "u")
         self.type_facts(st, v, t, param=False)
+        if not self.spec:
+            try:
+                for k_, tm in enumerate(flatten(v, t)):
+                    st.ghost["ret:%s:%d" % (short, k_)] = tm
+                self.arg_types[(short, "ret")] = t
+            except Unsupported:
+                pass
         return v
 
     def iface_contract(self, callee):
@@ -816,7 +928,48 @@ class CallMixin:
                 rt = self.T(f.node["Recv"]["List"][0]["Type"])
                 rv = self.adjust_receiver(self.unbox(recv, dt, st), dt, path[:-1], rt, st, e)
                 return self.invoke(f, [rv] + args, st, e)
+        sigd = sigt.under().d
+        ptypes_ = [self.prog.types[p_["t"]] for p_ in sigd.get("params") or []]
         c = self.iface_contract(callee)
+        if c is not None and "dispatch" in c.flags:
+            # closed set of implementations: case split on the dynamic type, each case against that method's contract
+            names = [x.strip() for x in c.flags["dispatch"].split(",") if x.strip()]
+            pkgpath = callee[:callee.find(".(")]
+            outs, conds = [], []
+            rest = st.fork()
+            rtypes = [self.prog.types[r_["t"]] for r_ in sigd.get("results") or []]
+            for nm in names:
+                want = ("*" + pkgpath + "." + nm[1:]) if nm.startswith("*") else (pkgpath + "." + nm)
+                dt = None
+                for tt in self.prog.types:
+                    if tt is not None and tt.s == want:
+                        dt = tt
+                        break
+                if dt is None:
+                    raise Unsupported("dispatch type %s not found" % want)
+                f, path = self.method_of(dt, mname)
+                if f is None:
+                    raise Unsupported("dispatch: %s has no method %s" % (want, mname))
+                cond = recv.tag == rid(self.type_tag(dt))
+                cst = st.fork(zand(st.pc, cond))
+                rt_ = self.T(f.node["Recv"]["List"][0]["Type"])
+                rv = self.adjust_receiver(self.unbox(recv, dt, cst), dt, path[:-1], rt_, cst, e)
+                val = self.invoke(f, [rv] + args, cst, e)
+                outs.append((cond, cst, val))
+                rest.pc = zand(rest.pc, znot(cond))
+            other = self.unknown_call(callee, e, rest, evaluated=True, argvals=args, argtypes=ptypes_)
+            merged_state = rest
+            result = other
+            for cond, cst, val in reversed(outs):
+                if len(rtypes) == 1:
+                    result = ite_value(cond, val, result, rtypes[0])
+                elif len(rtypes) > 1:
+                    result = TupleV([ite_value(cond, a_, b_, t_) for a_, b_, t_ in zip(val.items, result.items, rtypes)])
+                pc0 = st.pc
+                merged_state = self.merge(cst, merged_state)
+                merged_state.pc = pc0
+            st.assign_from(merged_state)
+            return result
         if c is not None:
             stub = None
             if "stub" in c.flags:
@@ -833,7 +986,7 @@ class CallMixin:
                 return out
             if stub is not None:
                 return self.modular_call(stub, e, st, [recv] + args)
-        return self.unknown_call(callee, e, st, evaluated=True)
+        return self.unknown_call(callee, e, st, evaluated=True, argvals=args, argtypes=ptypes_)
 
     def assume_stub_post(self, f, vals, out, st):
         c = f.contract
@@ -874,18 +1027,76 @@ class CallMixin:
         return outs[0] if len(outs) == 1 else TupleV(outs)
 
     # ------------------------------------------------------------ concurrency stubs (layer 4)
-    def trace_event(self, st, name, node):
-        n = st.ghost.get("trace_n", 0)
-        st.ghost["trace_n"] = n
+    def trace_event(self, st, name, node=None):
+        """Ghost call counter of an abstracted operation (DESIGN.md 3.3.6): contracts read it with zzCalls("name")."""
+        if self.spec:
+            return
+        key = "ev:" + name
+        cur = st.ghost.get(key)
+        if cur is None:
+            cur = z3.BitVecVal(0, 64)
+        st.ghost[key] = cur + z3.BitVecVal(1, 64)
+        clk = st.ghost.get("clock")
+        if clk is None:
+            clk = z3.BitVecVal(0, 64)
+        st.ghost["clock"] = clk + z3.BitVecVal(1, 64)
+        st.ghost["seq:" + name] = st.ghost["clock"]
+        self.events_seen.add(name)
 
     def chan_recv(self, e, st, commaok=False):
-        raise Unsupported("channel receive")
+        """A receive may deliver any value of the element type (other goroutines are not modelled); with the
+        two-result form the channel may also be closed."""
+        ch = e["X"]
+        ct = self.T(ch)
+        try:
+            self.ev(ch, st)
+        except Unsupported:
+            pass
+        et = ct.elem()
+        v = self.fresh_value(et, "recv")
+        self.type_facts(st, v, et, param=False)
+        self.trace_event(st, "chan.recv")
+        if commaok:
+            return v, self.fresh("recvok", z3.BoolSort())
+        return v
 
     def chan_send(self, s, st):
-        raise Unsupported("channel send")
+        try:
+            self.ev(s["Chan"], st)
+            self.ev(s["Value"], st)
+        except Unsupported:
+            pass
+        self.trace_event(st, "chan.send")
+        return st
 
     def select_stmt(self, s, st):
-        raise Unsupported("select statement")
+        """select: any ready case may be taken (nondeterministic choice); with a default clause the default may be
+        taken too.  Blocking forever is not a return path."""
+        from .stmt import _LoopCtx
+        fr = self.frames[-1]
+        ctx = _LoopCtx("select")
+        ctx.label = getattr(self, "pending_label", None)
+        self.pending_label = None
+        fr.loops.append(ctx)
+        outs = []
+        clauses = s["Body"]["List"]
+        choice = self.fresh("select", IS)
+        for k, cc in enumerate(clauses):
+            cst = st.fork(zand(st.pc, choice == idx(k)))
+            comm = cc.get("Comm")
+            if comm is not None:
+                kk = comm["k"]
+                if kk == "SendStmt":
+                    cst = self.chan_send(comm, cst)
+                elif kk == "ExprStmt":
+                    self.ev(comm["X"], cst)
+                elif kk == "AssignStmt":
+                    cst = self.ex(comm, cst)
+                else:
+                    raise Unsupported("select comm " + kk)
+            outs.append(self.ex_block(cc.get("Body"), cst) if cst is not None else None)
+        fr.loops.pop()
+        return self.join(outs + ctx.breaks)
 
     def map_lookup(self, e, st):
         raise Unsupported("map lookup")
